@@ -118,6 +118,7 @@ def install(lib):
     rnd.custom_yields = SelectorYields
     rnd.loops = {0: SelectorLoop()}
     C["utils"]["Random_edge_selector"] = rnd
+    install_helpers(lib)
 
 
 class RoundRobinLoop(SelectorLoop):
@@ -148,3 +149,18 @@ class RoundRobinLoop(SelectorLoop):
         # statement C15: cyclic successor over the edges present
         out.append(("advances-cyclically", i.t == z3.If(ih + 1 < n, ih + 1, z3.If(ih + 1 == n, 0, (ih + 1) % n))))
         return out
+
+
+def install_helpers(lib):
+    C = lib.contracts
+    # Pallet.add_item(item): exactly this item is appended, nothing else changes (C16)
+    C["Pallet"]["add_item"] = FnContract(
+        "add_item", [("item", ("obj", "item"), None)],
+        post=lambda c: [Def("items", V.list_append(c.old.f["items"], c.args["item"]), ("C16", "C03"))],
+        modifies=("items",), uses_inv=False, keeps_inv=False, props=("C16", "C03"))
+    # BaseFlowItem.set_creation(source_id, env): stamps the creation time with the current time (C18)
+    C["BaseFlowItem"]["set_creation"] = FnContract(
+        "set_creation", [("source_id", ("obj", "nodeid"), None), ("env", ("env",), None)],
+        post=lambda c: [Clause("creation-stamp-is-now", lambda c: z3.And(
+            z3.Not(c.new.f["timestamp_creation"].isnone), c.new.f["timestamp_creation"].val.t == c.old.now), ("C18",))],
+        modifies=("timestamp_creation", "source_id"), uses_inv=False, keeps_inv=False, props=("C18",))
